@@ -23,12 +23,14 @@ From Coq Require Import ZArith List Bool Permutation.
 From DV Require Import Model.PyPrims Model.Tree Model.C07Model Model.C07Spec Proofs.C07Thms.
 From DV Require Model.Heap Model.HeapOps Model.C03Spec Proofs.C03Base Proofs.C03Reseed.
 From DV Require Proofs.C07Link Proofs.C07LinkOps Proofs.C07LinkEdge Proofs.C07LinkOrder Proofs.C07LinkEx
-     Proofs.C07Seed.
+     Proofs.C07Seed Proofs.C07LinkMid Proofs.C07LinkRot Proofs.C07LinkGen Proofs.C07LinkGen2 Proofs.C07LinkEx2.
+From DV Require Gen.Mutators Model.C03GenInst Proofs.C03GenOrder.
 Import ListNotations.
 Open Scope Z_scope.
 
 (* Sections 1-6: the specification-level model.  Section 7: unifurcating seed, tie-break of
-   reroot_at_midpoint.  Section 8: end to end with the statement-level heap model of C03. *)
+   reroot_at_midpoint.  Section 8: end to end with the statement-level heap model of C03.
+   Section 9: the programs generated from the source (Gen/Mutators.v) preserve the unrooted tree. *)
 
 (* ============ 1. the core: inverting ONE edge (Edge.invert at the seed) ============ *)
 (* seed (i) with children A ++ k :: B; k = (i') with children ks'.  After the inversion k is the
@@ -516,3 +518,216 @@ Theorem nonvacuous_heap_reseed_at :
                    /\ Heap.abs h' = Some t' /\ t' <> ex_t.
 Proof. exact Proofs.C07LinkEx.ex_heap. Qed.
 Print Assumptions nonvacuous_heap_reseed_at.
+
+(* reroot_at_midpoint on the heap, for ANY taxon pair (tx1, tx2) and whatever the search finds:
+   C03 shows the program completes well formed or raises before touching the heap; whenever it
+   completes the result is the same unrooted tree and is_rooted = True.  (Equidistance of the chosen
+   pair is proved at the specification level: midpoint_equidistant; the heap program computes
+   dist / 2 by integer division, exact on trees with even lengths.) *)
+Theorem heap_reroot_at_midpoint_preserves :
+  forall tx1 tx2 ub su cb h t h',
+  C03Base.WF h -> Heap.abs h = Some t -> (2 <= length (t_kids t))%nat -> NoDup (leaf_taxa t) ->
+  HeapOps.reroot_at_midpoint tx1 tx2 ub su cb h = Heap.HOk h' ->
+  C03Base.WF h' /\ Heap.rooted h' = Some true /\
+  exists t', Heap.abs h' = Some t'
+    /\ Permutation (leaf_taxa t) (leaf_taxa t')
+    /\ (forall S, is_usplit t S <-> is_usplit t' S)
+    /\ total_length t' = total_length t
+    /\ (forall a b, dist a b t' = dist a b t).
+Proof. exact Proofs.C07LinkMid.heap_reroot_at_midpoint_l. Qed.
+Print Assumptions heap_reroot_at_midpoint_preserves.
+
+(* randomly_rotate on the heap (Node.set_child_nodes = clear + add_child each).  Script condition
+   perms_ok nodes perms h: for the internal nodes in preorder, the shuffle result consumed at each
+   node is a permutation of the indices of the child list it was computed from
+   (Permutation pm (seq 0 (length (kids h nd))), at the heap state in which it is consumed) -
+   what random.shuffle delivers.  rotate_nodes h t = filter (is_internal h) (pre_ids t). *)
+Theorem heap_randomly_rotate_preserves :
+  forall perms h t,
+  C03Base.WF h -> Heap.abs h = Some t -> NoDup (leaf_taxa t) ->
+  Proofs.C07LinkRot.perms_ok (Proofs.C07LinkRot.rotate_nodes h t) perms h ->
+  exists h' t', HeapOps.randomly_rotate perms h = Heap.HOk h' /\ C03Base.WF h' /\ Heap.abs h' = Some t'
+    /\ Heap.rooted h' = Heap.rooted h
+    /\ t_id t' = t_id t /\ Permutation (ids t) (ids t')
+    /\ Permutation (leaf_taxa t) (leaf_taxa t')
+    /\ (forall S, is_usplit t S <-> is_usplit t' S)
+    /\ total_length t' = total_length t
+    /\ (forall a b, dist a b t' = dist a b t).
+Proof. exact Proofs.C07LinkRot.heap_randomly_rotate_l. Qed.
+Print Assumptions heap_randomly_rotate_preserves.
+
+(* randomly_reorient when the sampled node is internal (for a sampled LEAF the library calls
+   to_outgroup_position with unifurcation suppression, for which C03 has refutations, not a
+   refinement) *)
+Theorem heap_randomly_reorient_preserves :
+  forall pick perms ub h t nd,
+  C03Base.WF h -> Heap.abs h = Some t -> nth_error (Heap.pre_ids t) pick = Some nd -> is_internal_node nd t ->
+  (2 <= length (t_kids t))%nat -> NoDup (leaf_taxa t) ->
+  (forall h1 t1, HeapOps.reseed_at nd ub true true h = Heap.HOk h1 -> Heap.abs h1 = Some t1 ->
+                 Proofs.C07LinkRot.perms_ok (Proofs.C07LinkRot.rotate_nodes h1 t1) perms h1) ->
+  exists h' t', HeapOps.randomly_reorient pick perms ub h = Heap.HOk h' /\ C03Base.WF h' /\ Heap.abs h' = Some t'
+    /\ Permutation (leaf_taxa t) (leaf_taxa t')
+    /\ (forall S, is_usplit t S <-> is_usplit t' S)
+    /\ total_length t' = total_length t
+    /\ (forall a b, dist a b t' = dist a b t).
+Proof. exact Proofs.C07LinkRot.heap_randomly_reorient_l. Qed.
+Print Assumptions heap_randomly_reorient_preserves.
+
+(* non-vacuity: a script satisfying perms_ok on the heap of ex_t, and a heap-level midpoint rooting *)
+Theorem nonvacuous_heap_randomly_rotate :
+  Proofs.C07LinkRot.perms_ok (Proofs.C07LinkRot.rotate_nodes (Heap.of_tree ex_t None) ex_t)
+                      [[1%nat; 0%nat]; [1%nat; 0%nat]; [0%nat; 1%nat]] (Heap.of_tree ex_t None)
+  /\ exists h' t', HeapOps.randomly_rotate [[1%nat; 0%nat]; [1%nat; 0%nat]; [0%nat; 1%nat]] (Heap.of_tree ex_t None) = Heap.HOk h'
+                   /\ Heap.abs h' = Some t' /\ t' <> ex_t.
+Proof. exact Proofs.C07LinkEx2.ex_heap_rotate. Qed.
+Print Assumptions nonvacuous_heap_randomly_rotate.
+
+Theorem nonvacuous_heap_reroot_at_midpoint :
+  exists h', HeapOps.reroot_at_midpoint 0 2 true true true (Heap.of_tree ex_t None) = Heap.HOk h'
+             /\ Heap.abs h' = Some ex_t /\ Heap.rooted h' = Some true.
+Proof. exact Proofs.C07LinkEx2.ex_heap_midpoint. Qed.
+Print Assumptions nonvacuous_heap_reroot_at_midpoint.
+
+(* ============ 9. the GENERATED programs ============ *)
+(* Gen/Mutators.v is compiled statement by statement from _tree.py / _node.py / _edge.py on every run
+   (py/dv/gen_mutators.py); C03 (Props/C03Gen.v) proves that on Heap.v's heap (C03GenInst.HG) the
+   generated Tree_* functions compute what HeapOps.v computes (to_hres forgets the returned Python
+   value).  Hence the generated programs preserve the unrooted tree.  Side conditions of C03's
+   refinements (fuel handed to generated while loops, "no node is its own child") are passed
+   through where C03 has them. *)
+Theorem generated_reroot_at_node_preserves :
+  forall ub su cb h t n,
+  C03Base.WF h -> Heap.abs h = Some t ->
+  is_internal_node n t -> (2 <= length (t_kids t))%nat -> NoDup (leaf_taxa t) ->
+  exists h' t', C03GenInst.to_hres (Mutators.Tree_reroot_at_node C03GenInst.HG n ub su cb h) = Heap.HOk h'
+    /\ C03Base.WF h' /\ Heap.abs h' = Some t' /\ Heap.rooted h' = Some true
+    /\ Permutation (leaf_taxa t) (leaf_taxa t')
+    /\ (forall S, is_usplit t S <-> is_usplit t' S)
+    /\ total_length t' = total_length t
+    /\ (forall a b, dist a b t' = dist a b t).
+Proof. exact Proofs.C07LinkGen.gen_reroot_at_node_l. Qed.
+Print Assumptions generated_reroot_at_node_preserves.
+
+Theorem generated_reroot_at_edge_preserves :
+  forall l1 l2 ub su h t ci H,
+  C03Base.WF h -> Heap.abs h = Some t -> find_node ci t = Some H -> ci <> t_id t ->
+  len0 l1 + len0 l2 = len0 (t_len H) ->
+  (2 <= length (t_kids t))%nat -> NoDup (leaf_taxa t) ->
+  exists h' t', C03GenInst.to_hres (Mutators.Tree_reroot_at_edge C03GenInst.HG ci l1 l2 ub su h) = Heap.HOk h'
+    /\ C03Base.WF h' /\ Heap.abs h' = Some t' /\ Heap.rooted h' = Some true
+    /\ Permutation (leaf_taxa t) (leaf_taxa t')
+    /\ (forall S, is_usplit t S <-> is_usplit t' S)
+    /\ total_length t' = total_length t
+    /\ (forall a b, dist a b t' = dist a b t).
+Proof. exact Proofs.C07LinkGen.gen_reroot_at_edge_l. Qed.
+Print Assumptions generated_reroot_at_edge_preserves.
+
+Theorem generated_to_outgroup_position_preserves :
+  forall ub h t og,
+  C03Base.WF h -> Heap.abs h = Some t -> In og (ids t) -> og <> t_id t ->
+  (2 <= length (t_kids t))%nat -> NoDup (leaf_taxa t) ->
+  exists h' t', C03GenInst.to_hres (Mutators.Tree_to_outgroup_position C03GenInst.HG og ub false h) = Heap.HOk h'
+    /\ C03Base.WF h' /\ Heap.abs h' = Some t'
+    /\ (exists k rest, t_kids t' = k :: rest /\ t_id k = og)
+    /\ Permutation (leaf_taxa t) (leaf_taxa t')
+    /\ (forall S, is_usplit t S <-> is_usplit t' S)
+    /\ total_length t' = total_length t
+    /\ (forall a b, dist a b t' = dist a b t).
+Proof. exact Proofs.C07LinkGen.gen_to_outgroup_l. Qed.
+Print Assumptions generated_to_outgroup_position_preserves.
+
+Theorem generated_reseed_at_preserves :
+  forall fuel ub cb su h t n ch,
+  C03Base.WF h -> Heap.abs h = Some t ->
+  is_internal_node n t -> (2 <= length (t_kids t))%nat -> NoDup (leaf_taxa t) ->
+  HeapOps.chain (Heap.fuel_of h) h n = Some ch -> (length ch + 2 <= fuel)%nat ->
+  (forall h1 c1 h', Heap.hfold Heap.edge_invert (rev ch) h = Heap.HOk h1 -> Heap.kids h1 n = [c1] ->
+                    Heap.remove_child_plain n c1 h1 = Heap.HOk h' -> (length (Heap.kids h' c1) < fuel)%nat) ->
+  exists h' t', C03GenInst.to_hres (Mutators.Tree_reseed_at C03GenInst.HG fuel n ub cb su h) = Heap.HOk h'
+    /\ C03Base.WF h' /\ Heap.abs h' = Some t'
+    /\ Permutation (leaf_taxa t) (leaf_taxa t')
+    /\ (forall S, is_usplit t S <-> is_usplit t' S)
+    /\ total_length t' = total_length t
+    /\ (forall a b, dist a b t' = dist a b t).
+Proof. exact Proofs.C07LinkGen.gen_reseed_at_l. Qed.
+Print Assumptions generated_reseed_at_preserves.
+
+Theorem generated_suppress_unifurcations_preserves :
+  forall h t,
+  C03Base.WF h -> Heap.abs h = Some t ->
+  (forall t0, Heap.abs_at h (Heap.seed h) = Some t0 -> C03GenInst.su_steps_ok (Heap.post_ids t0) h) ->
+  exists h', C03GenInst.to_hres (Mutators.Tree_suppress_unifurcations__update_bipartitions_False C03GenInst.HG h) = Heap.HOk h'
+    /\ C03Base.WF h' /\ Heap.abs h' = Some (suppress t)
+    /\ leaf_taxa (suppress t) = leaf_taxa t
+    /\ (forall S, is_usplit t S <-> is_usplit (suppress t) S)
+    /\ total_length (suppress t) = total_length t
+    /\ (forall a b, dist a b (suppress t) = dist a b t).
+Proof. exact Proofs.C07LinkGen.gen_suppress_l. Qed.
+Print Assumptions generated_suppress_unifurcations_preserves.
+
+Theorem generated_collapse_basal_bifurcation_preserves :
+  forall u h t,
+  C03Base.WF h -> Heap.abs h = Some t -> NoDup (leaf_taxa t) ->
+  (forall c, In c (Heap.kids h (Heap.seed h)) -> Heap.memz c (Heap.kids h c) = false) ->
+  exists h', C03GenInst.to_hres (Mutators.Tree_collapse_basal_bifurcation C03GenInst.HG u h) = Heap.HOk h'
+    /\ C03Base.WF h' /\ Heap.abs h' = Some (fst (collapse_basal t))
+    /\ Permutation (leaf_taxa t) (leaf_taxa (fst (collapse_basal t)))
+    /\ (forall S, is_usplit t S <-> is_usplit (fst (collapse_basal t)) S)
+    /\ total_length (fst (collapse_basal t)) = total_length t
+    /\ (forall a b, dist a b (fst (collapse_basal t)) = dist a b t).
+Proof. exact Proofs.C07LinkGen.gen_collapse_basal_l. Qed.
+Print Assumptions generated_collapse_basal_bifurcation_preserves.
+
+Theorem generated_randomly_rotate_preserves :
+  forall perms h t,
+  C03Base.WF h -> Heap.abs h = Some t -> NoDup (leaf_taxa t) ->
+  Proofs.C07LinkRot.perms_ok (Proofs.C07LinkRot.rotate_nodes h t) perms h ->
+  exists h' t', C03GenInst.to_hres (Mutators.Tree_randomly_rotate C03GenInst.HG perms h) = Heap.HOk h'
+    /\ C03Base.WF h' /\ Heap.abs h' = Some t' /\ Heap.rooted h' = Heap.rooted h
+    /\ Permutation (leaf_taxa t) (leaf_taxa t')
+    /\ (forall S, is_usplit t S <-> is_usplit t' S)
+    /\ total_length t' = total_length t
+    /\ (forall a b, dist a b t' = dist a b t).
+Proof. exact Proofs.C07LinkGen.gen_randomly_rotate_l. Qed.
+Print Assumptions generated_randomly_rotate_preserves.
+
+Theorem generated_randomly_reorient_preserves :
+  forall pick perms ub h t nd,
+  C03Base.WF h -> Heap.abs h = Some t -> nth_error (Heap.pre_ids t) pick = Some nd -> is_internal_node nd t ->
+  (2 <= length (t_kids t))%nat -> NoDup (leaf_taxa t) ->
+  (forall h1 t1, HeapOps.reseed_at nd ub true true h = Heap.HOk h1 -> Heap.abs h1 = Some t1 ->
+                 Proofs.C07LinkRot.perms_ok (Proofs.C07LinkRot.rotate_nodes h1 t1) perms h1) ->
+  exists h' t', C03GenInst.to_hres (Mutators.Tree_randomly_reorient C03GenInst.HG ([pick] :: perms) ub h) = Heap.HOk h'
+    /\ C03Base.WF h' /\ Heap.abs h' = Some t'
+    /\ Permutation (leaf_taxa t) (leaf_taxa t')
+    /\ (forall S, is_usplit t S <-> is_usplit t' S)
+    /\ total_length t' = total_length t
+    /\ (forall a b, dist a b t' = dist a b t).
+Proof. exact Proofs.C07LinkGen.gen_randomly_reorient_l. Qed.
+Print Assumptions generated_randomly_reorient_preserves.
+
+(* generated ladderize / reorder (reorder with its default key, label ranks as in HeapOps.v) *)
+Theorem generated_ladderize_preserves :
+  forall asc h t,
+  C03Base.WF h -> Heap.abs h = Some t -> NoDup (leaf_taxa t) ->
+  exists h' t', C03GenInst.to_hres (Mutators.Tree_ladderize C03GenInst.HG asc h) = Heap.HOk h'
+    /\ C03Base.WF h' /\ Heap.abs h' = Some t' /\ Heap.rooted h' = Heap.rooted h
+    /\ Permutation (leaf_taxa t) (leaf_taxa t')
+    /\ (forall S, is_usplit t S <-> is_usplit t' S)
+    /\ total_length t' = total_length t
+    /\ (forall a b, dist a b t' = dist a b t).
+Proof. exact Proofs.C07LinkGen2.gen_ladderize_l. Qed.
+Print Assumptions generated_ladderize_preserves.
+
+Theorem generated_reorder_preserves :
+  forall asc ranks h t,
+  C03Base.WF h -> Heap.abs h = Some t -> NoDup (leaf_taxa t) ->
+  exists h' t', C03GenInst.to_hres (Mutators.Tree_reorder C03GenInst.HG asc
+                   (Mutators.Tree_reorder__default_key C03GenInst.HG (Proofs.C03GenOrder.rank_of ranks)) h) = Heap.HOk h'
+    /\ C03Base.WF h' /\ Heap.abs h' = Some t' /\ Heap.rooted h' = Heap.rooted h
+    /\ Permutation (leaf_taxa t) (leaf_taxa t')
+    /\ (forall S, is_usplit t S <-> is_usplit t' S)
+    /\ total_length t' = total_length t
+    /\ (forall a b, dist a b t' = dist a b t).
+Proof. exact Proofs.C07LinkGen2.gen_reorder_l. Qed.
+Print Assumptions generated_reorder_preserves.
